@@ -164,7 +164,7 @@ func (rc *serviceReferenceChecker) IsReferencedByVirtualServerRoute(svcNamespace
 		if rc.hasClusterIP && u.UseClusterIP {
 			continue
 		}
-		if u.Service == svcName {
+		if u.Service == svcName || u.Backup == svcName {
 			return true
 		}
 	}
